@@ -23,6 +23,7 @@ pub struct TrackerClient {
     own_id: [u8; PEER_ID_SIZE],
     metainfo: Metainfo,
     tracker_ch: mpsc::Sender<TrackerCmd>,
+    left: u64,
 }
 
 impl TrackerClient {
@@ -32,11 +33,20 @@ impl TrackerClient {
         metainfo: Metainfo,
         tracker_ch: mpsc::Sender<TrackerCmd>,
     ) -> TrackerClient {
+        let left = metainfo.total_length();
         TrackerClient {
             own_id: *own_id,
             metainfo,
             tracker_ch,
+            left,
         }
+    }
+
+    /// Number of bytes still to download, reported to tracker as "left" (by default total length
+    /// of the torrent, which is right for the first announce of a fresh download).
+    pub fn with_left(mut self, left: u64) -> TrackerClient {
+        self.left = left;
+        self
     }
 
     /// Connect to tracker and wait for response.
@@ -49,7 +59,7 @@ impl TrackerClient {
             ("port", PORT.to_string()),
             ("uploaded", "0".to_string()),
             ("downloaded", "0".to_string()),
-            ("left", self.metainfo.total_length().to_string()),
+            ("left", self.left.to_string()),
             ("event", "started".to_string()),
             ("numwant", "20".to_string()),
         ];
